@@ -93,6 +93,24 @@ func wrapSkip2(s *site)           { log.Record(s.ctx, log.WarnLevel, s.tag, 2, l
 func wrapSkip3Inner(s *site)      { log.Record(s.ctx, log.ErrorLevel, s.tag, 3, log.Msg(s.id)) }
 func wrapSkip3(s *site)           { wrapSkip3Inner(s) }
 
+// c11Deep calls f at the bottom of n nested calls of itself
+//
+//go:noinline
+func c11Deep(n int, f func()) {
+	if n == 0 {
+		f()
+		return
+	}
+	c11Deep(n-1, f)
+}
+
+// c11DeepRecord logs with the given skip; the expected location is what the runtime reports for the same frame (skip 1 = this function's caller)
+func c11DeepRecord(s *site, skip int) {
+	_, file, line, _ := runtime.Caller(skip)
+	s.want = fmt.Sprintf("%s:%d", file, line)
+	log.Record(s.ctx, log.WarnLevel, s.tag, skip+1, log.Msg(s.id))
+}
+
 //go:noinline
 func notInlined(s *site) { s.mark(); log.Errorf(s.ctx, s.tag, "%s", s.id) }
 
@@ -141,6 +159,10 @@ var c11Extra = []struct {
 			}
 		}
 	}},
+	// large skips on a stack that really is that deep: 300 nested calls, Record's skip selecting a frame 101 / 150 / 299 levels up
+	{"record-skip101-deep", func(s *site) { c11Deep(300, func() { c11DeepRecord(s, 101) }) }},
+	{"record-skip150-deep", func(s *site) { c11Deep(300, func() { c11DeepRecord(s, 150) }) }},
+	{"record-skip299-deep", func(s *site) { c11Deep(300, func() { c11DeepRecord(s, 299) }) }},
 	// a skip beyond the bottom of the stack selects no frame: the location is empty, in both modes
 	{"record-skip-beyond-stack", func(s *site) { s.want = ":0"; log.Record(s.ctx, log.WarnLevel, s.tag, 200, log.Msg(s.id)) }},
 	{"record-skip-huge", func(s *site) { s.want = ":0"; log.Record(s.ctx, log.WarnLevel, s.tag, 1<<40, log.Msg(s.id)) }},
